@@ -296,6 +296,12 @@ def _apply(m, e, prefix):
     if op == "AddEta":
         return add_iiv(m, e["target"], "exp")
     if op == "RemoveEta":
+        if prefix == "SIG":  # no function removes an epsilon: take it out of the statements and drop what is unused
+            from pharmpy.basic import Expr
+            from pharmpy.modeling import remove_unused_parameters_and_rvs
+
+            st = m.statements.subs({Expr.symbol(nm(e["eta"])): Expr.integer(0)})
+            return remove_unused_parameters_and_rvs(m.replace(statements=st))
         return remove_iiv(m, [e["eta"]])
     if op == "Join":
         return create_joint_distribution(m, list(e["etas"]))
@@ -425,4 +431,12 @@ def stratum(c):
                 (s["edit"]["etas"], f.get("rec_items")) if s["edit"]["op"] == "Join" else None)
 
     # one-edit cases: class = kinds of records + step class; longer sequences: the step classes only
-    return json.dumps([len(c["steps"]), c["structural"], bool(c.get("plain")), [sk(s) for s in c["steps"]]])
+    cls = c.get("plain") or "no"
+    one = len(c["steps"]) == 1
+    extra = None
+    if one and cls == "named" and c["steps"][0]["edit"]["op"] == "RemoveEta":
+        # a value removed from a record mixing named and unnamed values: one class per (name pattern, position)
+        f = c["steps"][0]["feat"]
+        extra = (list(f.get("rec_names") or []), f.get("item_pos"))
+    # classes of everyday layouts get priority 0: they are served in every run, before the other one-edit classes
+    return json.dumps([0 if one and cls != "no" else len(c["steps"]), c["structural"], cls, [sk(s) for s in c["steps"]], extra])
